@@ -46,15 +46,18 @@ def families(quick):
     if quick:
         return [fam('b2', 2), fam('big', 1, kinds=('transaction',), keys=('tz1', 'tz4'), modes=('autofill', 'fill'), sims=(1, 2, 6), big=(17, 33, 49)),
                 fam('internal', 2, kinds=('transaction', 'transaction_kt', 'origination'), modes=('autofill',), sims=(8, 9, 3), uniform=False), fam('b3', 3, kinds=('transaction', 'reveal', 'origination'), sims=(2, 4, 5)),
-                fam('mixed-sims', 2, kinds=('transaction', 'origination'), keys=('tz1', 'tz4'), modes=('autofill',), sims=(1, 3, 5, 7), uniform=False)]
+                fam('mixed-sims', 2, kinds=('transaction', 'origination'), keys=('tz1', 'tz4'), modes=('autofill',), sims=(1, 3, 5, 7), uniform=False),
+                fam('mixed-sizes', 3, kinds=('transaction', 'origination_big'), keys=('tz1', 'tz4'), sims=(2, 3)),
+                fam('other-hard-limits', 2, kinds=('transaction', 'transaction_kt', 'origination'), keys=('tz1',), sims=(3, 4), hard_gas=2080000, hard_storage=30000)]
     return [fam('b3', 3, sims=(1, 2, 3, 4, 5, 6, 7), chains=(10, 16383)),
             fam('big', 1, kinds=('transaction',), modes=('autofill', 'fill'), sims=(1, 2, 3, 6), big=(17, 25, 33, 40, 47, 49, 64, 95)),
             fam('b4', 4, kinds=('transaction', 'reveal', 'origination'), sims=(1, 4, 5)),
             fam('internal', 3, kinds=('transaction', 'transaction_kt', 'origination'), modes=('autofill',), sims=(8, 9, 3, 4), uniform=False),
-            fam('mixed-sims', 3, kinds=('transaction', 'transaction_kt', 'origination'), modes=('autofill',), sims=(1, 2, 3, 4, 5, 6, 7), uniform=False)]
-    # Not a registered family (the property does not quantify over protocol constants; every network in the repository uses
-    # 1040000 / 60000): fam('other-hard-limits', 2, hard_gas=2080000, hard_storage=30000) makes FeeOKmodDev fail - fill() takes the gas
-    # *limit* from the node's constants but prices the gas of fees.DEFAULT_CONSTANTS (e.g. KT1 transfer: fee 104269 < 208252).
+            fam('mixed-sims', 3, kinds=('transaction', 'transaction_kt', 'origination'), modes=('autofill',), sims=(1, 2, 3, 4, 5, 6, 7), uniform=False),
+            fam('mixed-sizes', 4, kinds=('transaction', 'reveal', 'origination_big'), sims=(2, 3, 4)),
+            fam('other-hard-limits', 2, sims=(3, 4, 5), hard_gas=2080000, hard_storage=30000), fam('small-hard-limits', 2, sims=(3, 4), hard_gas=520000, hard_storage=70000)]
+    # other-hard-limits / small-hard-limits: a node serving other constants than mainnet's 1040000 / 60000 (before the fee repair fill() priced the gas of
+    # fees.DEFAULT_CONSTANTS while taking the limit from the node; the repaired code prices the limit it sets, so these families hold now).
 
 
 def observe(kinds, key_kind, mode, sim_ix, chain, hard_gas, hard_storage):
@@ -72,7 +75,7 @@ def observe(kinds, key_kind, mode, sim_ix, chain, hard_gas, hard_storage):
         for j, kind in enumerate(kinds):
             mg, pdiff, alloc, nint = SIMS[(sim_ix[0] if j == 0 else sim_ix[1]) - 1]
             spec.append({'consumed_milligas': mg, 'paid_storage_size_diff': pdiff, 'internal': [INT_MILLIGAS] * nint,
-                         'originated' if kind == 'origination' else 'allocated_destination_contract': alloc})
+                         'originated' if kind.startswith('origination') else 'allocated_destination_contract': alloc})
         node.sim_script.append(spec)
         f = g.autofill()
     else:
@@ -148,7 +151,7 @@ def run(ctx):
     ctx.assumptions = [
         'node rule: 1000*fee >= 100000 + 1000*signed_size + 100*total_gas_limit (default minimal_fees / nanotez_per_byte / nanotez_per_gas_unit)',
         'a tz4-signed operation is at least forged bytes + 96 (BLS signature); used when Key.sign cannot produce the signature (C23 finding)',
-        'the node serves the mainnet constants hard_gas_limit_per_operation = 1040000, hard_storage_limit_per_operation = 60000 (the property does not quantify over protocol constants)',
+        'the node serves the mainnet constants hard_gas_limit_per_operation = 1040000, hard_storage_limit_per_operation = 60000, and in two families a node with other constants (2080000 / 30000, 520000 / 70000)',
         'simulation results are served by FakeNode (consumed_milligas, paid_storage_size_diff, allocation flags from the model\'s pool); the mempool is empty',
         'contents: transfers to an implicit / originated account, reveal, self-delegation, origination of a fixed 28-byte script; amounts 1..4 mutez',
         'no Leg C: the fee computation is a function of the scenario, recorded calls would repeat Leg B',
